@@ -138,6 +138,12 @@ def err_kind(exc):
     return "other:" + type(exc).__name__
 
 
+def exc_frames(exc):
+    """Names of the plugin's functions on the traceback of an exception (innermost last)."""
+    import traceback
+    return [f.name for f in traceback.extract_tb(exc.__traceback__) if "octoprint_excluderegion" in f.filename]
+
+
 def call_gcode(h, cmd, gcode=None, subcode=None):
     """Run handleGcode, returning ('none',) | ('ignore',) | ('list', [...]) | ('err', kind)."""
     if gcode is None:
@@ -148,7 +154,7 @@ def call_gcode(h, cmd, gcode=None, subcode=None):
         with guard.watchdog():
             r = h.handleGcode(cmd, gcode, subcode)
     except Exception as exc:  # pylint: disable=broad-except
-        return ("err", err_kind(exc))
+        return ("err", err_kind(exc), exc_frames(exc))
     if r is None:
         return ("none",)
     if r is IGNORE_GCODE_CMD or r == IGNORE_GCODE_CMD:
@@ -162,7 +168,7 @@ def call_at(h, cmd, params, streaming=False):
         with guard.watchdog():
             handled = h.handleAtCommand(comm, cmd, params)
     except Exception as exc:  # pylint: disable=broad-except
-        return ("err", err_kind(exc))
+        return ("err", err_kind(exc), exc_frames(exc))
     return ("at", bool(handled), list(comm.sent))
 
 
